@@ -1,32 +1,5 @@
-# Per-property configuration of the driver. Text fields end up in evidence files.
-PROPS = {
-    "C13": {
-        "engine": "c13", "race": False, "level": "exploration", "exhaustive": True,
-        "crash_is_violation": True,
-        "rule": "every point of the grid deputies-per-term(1..9 quick, 1..17 thorough; equal, shrinking, growing and "
-                "rotated membership across 3 terms) x slot {1,2,3,10}s x 12 heights (1, 2, mid-term, snapshot, last of "
-                "interim, reward block, ...) x every parent miner (+ non-deputy / previous-term parent at height 1 and "
-                "reward heights) x parent time x instant tp+k*T+delta (k=0..3n, delta in {0,1ms,T/2,T-1ms}) x every target "
-                "deputy is executed against the real GetCorrectMiner / GetMinerDistance / GetDeputyByDistance / "
-                "GetNextMineWindow / Validator.VerifyMiner / Miner.getSleepTime; distinct = distinct grid point; "
-                "non-trivial = more than one deputy and (k>0 or a special height/parent)",
-        "assumptions": ["slot lengths and parent times are whole seconds (as the statement says)",
-                        "reference rotation is written from the property statement, independent of the repo code"],
-        "min_cases": {"quick": 10000, "thorough": 50000},
-    },
-    "C01": {
-        "engine": "c01", "race": False, "level": "exploration", "crash_is_violation": True,
-        "technique": "differential runtime monitoring (miner vs miner' vs repeated mining vs validators with different histories)",
-        "rule": "scenario = world (1..5 deputies) + 6..19 consecutive blocks whose candidate lists are drawn from a zoo of all 11 tx types "
-                "(valid, failing-but-included, reverting, box-wrapped, template and random bytecode) interleaved with must-discard candidates; "
-                "each block is executed by: the honest miner path with all candidates, twice more on fresh managers, another node's miner with the "
-                "same survivors but a different discard set, survivors only, and four validators (one validate-only, one that mined and threw away "
-                "other candidate sets, one reopened from disk); distinct = distinct (deputy count, height, candidate kind sequence); non-trivial = "
-                "at least one discarded candidate and at least two tx types included",
-        "assumptions": ["stable pointers of all nodes are aligned at reward heights (refund list is read from the stable candidate file)",
-                        "snapshot-height blocks carry no transactions (vote changes inside a snapshot block are C10's known finding)",
-                        "block time is crafted in the past; the only wall-clock input of validation is time <= now+1"],
-        "min_cases": {"quick": 200, "thorough": 5000},
-        "timeout_s": {"quick": 900, "thorough": 10800},
-    },
-}
+# Per-property driver configuration: one file per property in props.d/<ID>.py defining PROP.
+import glob, os, runpy
+PROPS = {}
+for _p in sorted(glob.glob(os.path.join(os.path.dirname(os.path.abspath(__file__)), "props.d", "C*.py"))):
+    PROPS[os.path.basename(_p)[:-3]] = runpy.run_path(_p)["PROP"]
